@@ -74,6 +74,12 @@ CATALOGUE = {
         atoms=[[(1, 2, 4, 6)], [(3, 1, 7, 4)], [(6, 3, 9, 8)]],
         gp=True,
     ),
+    # four nested rectangles: rings inside the holes of rings (nesting depth 4)
+    "U4nest": dict(
+        N=10,
+        atoms=[[(1, 1, 9, 9)], [(2, 2, 8, 7)], [(3, 3, 7, 6)], [(4, 4, 6, 5)]],
+        gp=True,
+    ),
     # four bars forming a ring (their union has a hole)
     "U4ring": dict(
         N=12,
